@@ -732,6 +732,8 @@ def jobs(tier):
     # the same sweep on column-major counts must give the same numbers as on row-major counts
     J.append(dict(module='harness.C04', func='mle_container_job', name='mle[n=2,column-major ndarray,one sweep]', kwargs=dict(n=2, container='ndarray-F'),
                   sig_prefix='mle', deadline_s=280 if q else 1700, timeout_ms=60000 if q else 300000, tol=1e-5))
+    J.append(dict(module='harness.C04', func='mle_container_job', name='mle[n=2,coo with repeated coordinates,one sweep]', kwargs=dict(n=2, container='coo-dup'),
+                  sig_prefix='mle', deadline_s=280 if q else 1700, timeout_ms=60000 if q else 300000, tol=1e-5))
     # the bounded whole-function run (TypeError / assertion regressions, stochasticity, detailed balance) lives in C04's mle job
     J.append(dict(module='harness.C04', func='mle_job', name='mle[n=2,max_iter=1,tol=inf]', kwargs=dict(n=2, max_iter=1, tol=float('inf')),
                   sig_prefix='mle', deadline_s=280 if q else 1700, timeout_ms=60000 if q else 300000, tol=1e-5))
